@@ -29,7 +29,7 @@ CHECKS = {
              'collapse_refines_measure, spec_measure_group_char, eval_hom, central_is_scalar); (O) every record, peek/is_deterministic/'
              'expectation answer and measure-after-peek of the real simulator (3 widths, index straddling 64/128/256, all gates, '
              'feedback, MPP/SPP, REPEAT, `!`) must be a solution of the specification\'s symbolic sign forms, decided by the verified '
-             'GF(2) solver (sound+complete); free measurements must take both values. Reference samples through the loop-folding path (ReferenceSampleTree, REPEAT >= 10 with the record replayed for skipped iterations, feedback looking back across the loop, pre-loop results that differ from the periodic content) must solve the forms of the unrolled circuit.',
+             'GF(2) solver (sound+complete); free measurements must take both values. Reference samples through the loop-folding path (ReferenceSampleTree, REPEAT >= 10 with the record replayed for skipped iterations, feedback looking back across the loop, pre-loop results that differ from the periodic content) must solve the forms of the unrolled circuit. TableauSimulator measurement / reset routines, collapse wrappers and pair-measurement segments are regenerated from source (GenProofs_TabMeas); the hand model coq/Mpp.v of gate_decomposition.cc (MPP, SPP, pair segments, reversed segments) is extracted and run against the real functions on the same instructions, and MppProofs proves that every flushed block measures each of its (pairwise disjoint) products with the right sign, for products of any size.',
         note=TB + ' The assembly of the per-step lemmas into one theorem over whole circuits (tabsim_refines_spec) is not finished: '
                   'whole-circuit behaviour is tied by the oracle correspondence. The stabilizer measurement rule for n>2 qubits is '
                   'the standard update rule (DESIGN section 6).',
@@ -128,7 +128,7 @@ CHECKS = {
              'counts, escaped tags and fusable neighbours through the string/file/stop_asap entry points must parse to the intended '
              'structure, print, re-parse equal to six digits and then round trip exactly; API-built circuits with arbitrary tag bytes '
              'and extreme arguments; 57 rejection rules; mutation/truncation/random-byte fuzz under ASan with a 20 s limit per input; '
-             'object reuse after rejected appends; memory growth on inputs of size n, 2n, 4n.',
+             'object reuse after rejected appends; memory growth on inputs of size n, 2n, 4n. The decimal readers read_uint24_t / read_uint63_t are regenerated from source and proved not to wrap modulo the machine word before their limit test (GenProofs_IntRead); numbers past every limit, including those that wrap back into range modulo 2^32 / 2^64, must be rejected.',
         note=TB + ' The full grammar is not modelled in Coq (components are); number formatting (printf %g/strtod), memory safety and '
                   'memory growth are measured, not proved. Known finding D14 (non-finite arguments print but do not parse).',
         design='§4 C07'),
@@ -139,7 +139,7 @@ CHECKS = {
              'offset through nested repeat blocks = unrolling then executing one instruction at a time; any nesting, counts, offsets), '
              'tag and decimal round trips shared with C07; dtargets_roundtrip / read_u60_print (whole target lists D<n> L<n> ^ through operator<< and read_arbitrary_dem_targets_into with the 2^60 limit). Tie H: the extracted target-list reader/printer against the real ones (irregular spacing, comments, letter case, malformations); random models (repeat to 2^59, shifts, separators, escaped tags, 60-bit '
              'ids, awkward doubles incl. subnormals) through string/file parsers: intended structure and bit-exact print/parse round '
-             'trip; 28 rejection rules; fuzz under ASan; flattened() and iter_flatten_error_instructions against the extracted model.',
+             'trip; 28 rejection rules; fuzz under ASan; flattened() and iter_flatten_error_instructions against the extracted model. read_uint60_t is regenerated from source and proved not to wrap before its limit test (GenProofs_IntRead).',
         note=TB + ' The DEM parser is not modelled beyond tags, integers and target lists; coordinate shifts are checked by C15\'s interpreter, not in DemFlat.',
         design='§4 C08'),
     'C16': dict(
